@@ -196,6 +196,37 @@ async fn one_config(a: Args, idx: usize, proto: Proto, transport: Transport) -> 
             }
         }
     }
+    // a datagram session that goes on from another source address (a client behind a NAT that rebinds, a roaming device),
+    // played by the reference client through the same man-in-the-middle: whatever the server makes of the move, what it
+    // sends for that session before and after is in the tape and in the (key, nonce) set
+    if let (Some(ut), Some(u), Some(m)) = (&udp_target, &udpfwd, cfg.method()) {
+        if m.is_2022() {
+            let keys = cfg.ref_client_keys();
+            let target = refimpl::addr::Addr::V4([127, 0, 0, 1], ut.port);
+            for round in 0..if a.thorough { 6 } else { 2 } {
+                let sid = rng.next_u64();
+                let (Ok(s1), Ok(s2)) = (UdpSocket::bind("127.0.0.1:0").await, UdpSocket::bind("127.0.0.1:0").await) else { continue };
+                let mut buf = vec![0u8; 70000];
+                for pid in 1..=8u64 {
+                    let sock = if pid <= 4 || (round % 2 == 1 && pid == 7) { &s1 } else { &s2 };
+                    let payload = make_payload(nonce, 500 + round as u16, 0, pid as u32, 100, 0);
+                    let p = ss::S22UdpPacket { session_id: sid, packet_id: pid, type_byte: 0, timestamp: now_s(), client_session_id: None, padding: vec![], addr: target.clone(), payload };
+                    let w = ss::s22_udp_client_encode(m, &keys, &p, &rng.arr());
+                    let _ = sock.send_to(&w, ("127.0.0.1", u.port)).await;
+                    rep.evaluations += 1;
+                    // the replies (two per datagram) come back to whichever address the server believes in
+                    for _ in 0..2 {
+                        tokio::select! {
+                            _ = s1.recv_from(&mut buf) => {}
+                            _ = async { let mut b2 = vec![0u8; 70000]; let _ = s2.recv_from(&mut b2).await; } => {}
+                            _ = tokio::time::sleep(Duration::from_millis(120)) => {}
+                        }
+                    }
+                }
+                rep.mon("datagram_sessions_continued_from_another_address", 1);
+            }
+        }
+    }
     tokio::time::sleep(Duration::from_millis(400)).await;
     // ---- the tapes, decoded with the reference implementation
     let mut set = UnitSet::default();
